@@ -380,7 +380,8 @@ def run_step(step, live, r_aux):
     if kind == 'big':
         global BIG_NEXT
         n = BIG_NEXT
-        BIG_NEXT = BIG_NEXT * 2 + 1
+        # doubling stops at BIG_CAP: a run of several passes in one process (change-directed escalation) must not grow without bound
+        BIG_NEXT = min(BIG_NEXT * 2 + 1, BIG_CAP)
         r = step[2] % 3
         if r == 0:
             return f'Index(<{n} labels>)', sf.Index(np.arange(n) * 2 + 1)
@@ -470,6 +471,7 @@ def run_step(step, live, r_aux):
 
 
 CALLER_EXTRA = []    # arrays handed to the library by 'arr_arg' steps (moved into the caller's list after the step)
+BIG_CAP = 150000
 BIG_NEXT = 1100      # length of the next 'big' container (beyond every capacity reached so far in this process)
 
 
